@@ -334,6 +334,7 @@ func vectors(n int) []string {
 func run(r *core.Run) int {
 	r.Rule = "an in-process RFC 3161 authority behind tspclient's HTTP timestamper: behaviours {granted, rejection / waiting / warning status, imprint of other bytes, other hash algorithm, wrong / missing nonce, untrusted root, defective TSA leaf (EKU not critical / extra EKU / wrong or absent key usage / CA) or CA (key usage absent / no certSign / pathLen too small), certificates omitted, intermediates omitted, wrong CMS content type, missing signed attributes, wrong message digest, broken signature, wrong signing-certificate hash, garbage, truncated, empty, wrong HTTP content type, HTTP 500, transport error, timeout, granted without token} " +
 		"x revocation validator {absent, every vector over {OK, NonRevokable, Unknown, Revoked}^n for the TSA chain length n = 2..4, error, wrong length, empty} x 2 formats x 2 schemes x timestamper present/absent; complete for P-256, pairwise for the other five key specs. non-trivial = a timestamper is set; distinct by descriptor"
+	r.Assume("a TSA chain that expired decades ago (or starts decades from now) does not 'chain to the trusted roots' at the time of signing, whatever genTime the token claims")
 	r.Assume("the authority double labels what it served; 'granted with modifications', a non-UTC genTime and TSTInfo version 2 are not settled by the statement and only counted")
 	var cases []*Case
 	rng := r.Rand("pairwise")
